@@ -38,6 +38,7 @@ import Honeycomb.Model.Scene
 import Honeycomb.Props.C03
 import Mathlib.Data.List.Forall2
 import Mathlib.Data.List.Iterate
+import Mathlib.Data.List.Nodup
 
 set_option linter.unusedSimpArgs false
 set_option linter.unusedVariables false
@@ -487,5 +488,756 @@ theorem dart_entity (h : extractWith R vn = some sc) {e : DartEnt} (he : e ∈ s
   · obtain ⟨k1, k2, k3, k4, k5, i, d', k6, k7, k8⟩ := key w2 d2 hd2 hel
     rw [k1]
     exact ⟨hf, k2, k3, k4, k5, w, w2, hw, hs2, Or.inr ⟨i, d', k6, k7, k8⟩⟩
+
+theorem dartBundles_map_fd {f : Nat} {w : List Nat} {ents : List DartEnt}
+    (h : dartBundles R f w = some ents) :
+    ents.map (fun e => (e.f, e.d)) = w.map (fun d => (f, d)) := by
+  obtain ⟨hlen, hget⟩ := dartBundles_get h
+  apply List.ext_getElem?
+  intro i
+  rw [List.getElem?_map, List.getElem?_map]
+  by_cases hi : i < w.length
+  · obtain ⟨e, d', he, _, hd, hf, _⟩ := hget i w[i] (List.getElem?_eq_getElem hi)
+    rw [he, List.getElem?_eq_getElem hi]; simp [hd, hf]
+  · have h1 : ents[i]? = none := by rw [List.getElem?_eq_none_iff]; omega
+    have h2 : w[i]? = none := by rw [List.getElem?_eq_none_iff]; omega
+    rw [h1, h2]; rfl
+
+theorem forall₂_map_eq {α β γ : Type} {P : α → β → Prop} {F : α → γ} {G : β → γ} :
+    ∀ {l : List α} {r : List β}, List.Forall₂ P l r → (∀ a b, a ∈ l → P a b → F a = G b) →
+      l.map F = r.map G := by
+  intro l r h
+  induction h with
+  | nil => intro _; rfl
+  | cons hab _ ih =>
+      intro hall
+      simp only [List.map_cons, List.cons.injEq]
+      exact ⟨hall _ _ List.mem_cons_self hab, ih fun a b ha => hall a b (List.mem_cons_of_mem _ ha)⟩
+
+/-- the extraction succeeds as soon as every lookup it performs does -/
+theorem extractWith_isSome
+    (hc : ∀ v, v ∈ R.vs → ∃ x, R.coords v = some x)
+    (he : ∀ id, id ∈ R.es → ∃ b, edgeBundle R id = some b)
+    (hf : ∀ f, f ∈ R.fs → ∃ fb, faceBundle R f = some fb) :
+    ∃ sc, extractWith R vn = some sc := by
+  obtain ⟨table, h1⟩ := mapO_isSome hc
+  obtain ⟨verts, h2⟩ := mapO_isSome (f := fun v => (rowOf R.vs v).map (fun r => (v, r))) (l := R.vs)
+    (fun v hv => by obtain ⟨r, hr⟩ := rowOf_of_mem hv; exact ⟨(v, r), by simp [hr]⟩)
+  obtain ⟨edges, h3⟩ := mapO_isSome he
+  obtain ⟨fbs, h4⟩ := mapO_isSome hf
+  unfold extractWith
+  rw [h1, h2, h3, h4]
+  exact ⟨_, rfl⟩
+
+theorem dartBundles_isSome {f : Nat} {w : List Nat}
+    (hw : ∀ d, d ∈ w → (∃ r, R.rowOfDart d = some r) ∧ (∃ v, R.vid d = some v) ∧
+      (∃ e, R.eid d = some e) ∧ ∃ c, R.volid d = some c) :
+    ∃ ents, dartBundles R f w = some ents := by
+  obtain ⟨rows, hr⟩ := mapO_isSome (f := R.rowOfDart) (l := w) fun d hd => (hw d hd).1
+  unfold dartBundles
+  rw [hr]
+  apply mapO_isSome
+  intro p hp
+  have hp1 : p.1 ∈ w.zip rows := by
+    have : p.1 ∈ (cyclicPairs (w.zip rows)).map Prod.fst := List.mem_map_of_mem hp
+    rwa [map_fst_cyclicPairs] at this
+  have hd : p.1.1 ∈ w := (List.of_mem_zip hp1).1
+  obtain ⟨_, ⟨v, hv⟩, ⟨e, he⟩, ⟨c, hc⟩⟩ := hw _ hd
+  rw [hv, he, hc]
+  exact ⟨_, rfl⟩
+
+theorem faceBundle_isSome {f : Nat} {w w2 : List Nat} (hwalk : R.walk f = some w)
+    (hs2 : R.side2 f = some w2) (hlen : 2 ≤ w.length)
+    (hw : ∀ d, d ∈ w ++ w2 → (∃ r, R.rowOfDart d = some r) ∧ (∃ v, R.vid d = some v) ∧
+      (∃ e, R.eid d = some e) ∧ ∃ c, R.volid d = some c) :
+    ∃ fb, faceBundle R f = some fb := by
+  obtain ⟨rows, hr⟩ := mapO_isSome (f := R.rowOfDart) (l := w)
+    fun d hd => (hw d (List.mem_append_left _ hd)).1
+  obtain ⟨d1, hd1⟩ := dartBundles_isSome (R := R) (f := f) (w := w)
+    fun d hd => hw d (List.mem_append_left _ hd)
+  obtain ⟨d2, hd2⟩ := dartBundles_isSome (R := R) (f := f) (w := w2)
+    fun d hd => hw d (List.mem_append_right _ hd)
+  unfold faceBundle
+  rw [hwalk]
+  simp only [hr]
+  have : ¬ rows.length < 2 := by rw [mapO_length hr]; omega
+  rw [if_neg this, hd1, hs2]
+  simp only [Option.bind_some, hd2]
+  exact ⟨_, rfl⟩
+
+/-! ## the `Custom(&[1])` walk on a closed face is the β1-cycle -/
+
+/-- BFS with a single image per dart: one step -/
+theorem bfsPure_single (s : Nat → Nat) (fuel d : Nat) (mk out : List Nat) :
+    bfsPure (fun x => [s x]) (fuel + 1) [d] mk out =
+      if mk.contains (s d) then out ++ [d]
+      else bfsPure (fun x => [s x]) fuel [s d] (mk ++ [s d]) (out ++ [d]) := by
+  rw [bfsPure]
+  simp only [List.foldl_cons, List.foldl_nil, bfsCheck]
+  by_cases hc : mk.contains (s d) = true
+  · simp only [hc, if_true]
+    cases fuel <;> rfl
+  · simp only [hc, if_false, Bool.false_eq_true, List.nil_append]
+
+/-- … hence the result is a chain `d, s d, s (s d), …` -/
+theorem bfsPure_chain (s : Nat → Nat) : ∀ (fuel d : Nat) (mk out : List Nat),
+    ∃ k, bfsPure (fun x => [s x]) fuel [d] mk out = out ++ List.iterate s d k := by
+  intro fuel
+  induction fuel with
+  | zero => intro d mk out; exact ⟨0, by simp [bfsPure]⟩
+  | succ f ih =>
+      intro d mk out
+      rw [bfsPure_single]
+      by_cases hc : mk.contains (s d) = true
+      · rw [if_pos hc]
+        exact ⟨1, by simp [List.iterate]⟩
+      · rw [if_neg hc]
+        obtain ⟨k, hk⟩ := ih (s d) (mk ++ [s d]) (out ++ [d])
+        exact ⟨k + 1, by rw [hk]; simp [List.iterate]⟩
+
+/-- every in-use dart has a successor (the faces are closed) -/
+def ClosedFaces {X : Type} (m : Map X) : Prop :=
+  ∀ d, d < m.n → d ≠ 0 → m.unused d = false → m.β 1 d ≠ 0
+
+instance {X : Type} (m : Map X) : Decidable (ClosedFaces m) := by
+  unfold ClosedFaces; exact inferInstance
+
+/-- in-use darts, as the property means it -/
+def InUse {X : Type} (m : Map X) (d : Nat) : Prop := d ≠ 0 ∧ d < m.n ∧ m.unused d = false
+
+instance {X : Type} (m : Map X) (d : Nat) : Decidable (InUse m d) := by
+  unfold InUse; exact inferInstance
+
+/-- the darts yielded by `orbit(Custom(&[1]), d)`, as a pure function (C03's `orb`) -/
+def walk1 {X : Type} (m : Map X) (d : Nat) : List Nat := C03.orb m (.custom [1]) d
+
+theorem polOK1 : C03.PolOK (.custom [1]) := by
+  intro b hb
+  simp only [List.mem_singleton] at hb
+  omega
+
+theorem g2_custom1 {X : Type} (m : Map X) : C03.g2 m (.custom [1]) = fun x => [m.β 1 x] := by
+  funext x; rfl
+
+/-- **walk lemma**: on a well-formed 2-map with closed faces, the `Custom(&[1])` orbit of an in-use
+    dart `d` is `d, β1 d, β1² d, …, β1^(k-1) d` with `k ≥ 1` darts, all distinct and in use, and
+    `β1^k d = d` -/
+theorem walk1_cycle {X : Type} {m : Map X} (hwf : WF 3 m) (hcl : ClosedFaces m) {d : Nat}
+    (hd : InUse m d) :
+    walk1 m d = List.iterate (m.β 1) d (walk1 m d).length ∧ 0 < (walk1 m d).length ∧
+    (walk1 m d).Nodup ∧ (m.β 1)^[(walk1 m d).length] d = d ∧ ∀ x, x ∈ walk1 m d → InUse m x := by
+  obtain ⟨hd0, hdn, hdu⟩ := hd
+  obtain ⟨_, hhead, hnd, hno0, hmem, hlt⟩ := C03.C03_orbit2_spec hwf polOK1 hd0 hdn
+  have huse := C03.C03_orbit_of_in_use_is_in_use hwf polOK1 hd0 hdn hdu
+  change (walk1 m d).head? = some d at hhead
+  change (walk1 m d).Nodup at hnd
+  change 0 ∉ walk1 m d at hno0
+  change ∀ x, x ∈ walk1 m d ↔ x ≠ 0 ∧ Reach (C03.g2 m (.custom [1])) d x at hmem
+  change ∀ x, x ∈ walk1 m d → x < m.n at hlt
+  change ∀ x, x ∈ walk1 m d → m.unused x = false at huse
+  obtain ⟨k, hk⟩ := bfsPure_chain (m.β 1) (m.n + 1) d [0, d] []
+  have hk' : walk1 m d = List.iterate (m.β 1) d k := by
+    show bfsPure (C03.g2 m (.custom [1])) (m.n + 1) [d] [0, d] [] = _
+    rw [g2_custom1, hk]; rfl
+  have hlen : (walk1 m d).length = k := by rw [hk', List.length_iterate]
+  have hk0 : 0 < k := by
+    cases k with
+    | zero => rw [hk'] at hhead; simp [List.iterate] at hhead
+    | succ k => omega
+  have hin : ∀ x, x ∈ walk1 m d → InUse m x := fun x hx =>
+    ⟨fun e => hno0 (e ▸ hx), hlt x hx, huse x hx⟩
+  refine ⟨by rw [hlen]; exact hk', by omega, hnd, ?_, hin⟩
+  rw [hlen]
+  -- the last dart `x` of the walk and its successor
+  have hx : (m.β 1)^[k - 1] d ∈ walk1 m d := by
+    rw [hk', List.mem_iterate]; exact ⟨k - 1, by omega, rfl⟩
+  obtain ⟨hx0, hxn, hxu⟩ := hin _ hx
+  have hs0 : m.β 1 ((m.β 1)^[k - 1] d) ≠ 0 := hcl _ hxn hx0 hxu
+  have hsk : m.β 1 ((m.β 1)^[k - 1] d) = (m.β 1)^[k] d := by
+    rw [← Function.iterate_succ_apply' (m.β 1) (k - 1) d]
+    congr 1; omega
+  have hs : (m.β 1)^[k] d ∈ walk1 m d := by
+    rw [hmem]
+    refine ⟨by rw [← hsk]; exact hs0, ?_⟩
+    have := ((hmem _).1 hx).2
+    refine this.tail ?_
+    rw [g2_custom1, ← hsk]; simp
+  rw [hk', List.mem_iterate] at hs
+  obtain ⟨j, hj, hje⟩ := hs
+  cases j with
+  | zero => simpa using hje
+  | succ j =>
+      exfalso
+      -- `β1^k d = β1^(j+1) d`: apply β0 on both sides
+      have e1 : (m.β 1)^[j + 1] d = m.β 1 ((m.β 1)^[j] d) := Function.iterate_succ_apply' _ _ _
+      have hy : (m.β 1)^[j] d ∈ walk1 m d := by
+        rw [hk', List.mem_iterate]; exact ⟨j, by omega, rfl⟩
+      obtain ⟨_, hyn, _⟩ := hin _ hy
+      have hne : m.β 1 ((m.β 1)^[j] d) ≠ 0 := by rw [← e1, ← hje, ← hsk]; exact hs0
+      have i1 := hwf.inv01 _ hxn hs0
+      have i2 := hwf.inv01 _ hyn hne
+      have e2 : (m.β 1)^[k - 1] d = (m.β 1)^[j] d := by
+        rw [← i1, ← i2, hsk, hje, e1]
+      -- two positions of a duplicate-free list with the same dart
+      rw [hk'] at hnd
+      have h1 : (List.iterate (m.β 1) d k)[k - 1]'(by simp; omega) = (m.β 1)^[k - 1] d :=
+        List.getElem_iterate _ _ _ _ _
+      have h2 : (List.iterate (m.β 1) d k)[j]'(by simp; omega) = (m.β 1)^[j] d :=
+        List.getElem_iterate _ _ _ _ _
+      have := (List.Nodup.getElem_inj_iff hnd).1 (h1.trans (e2.trans h2.symm))
+      omega
+
+/-- the cyclic successor inside the walk is the β1-image -/
+theorem walk1_succ {X : Type} {m : Map X} (hwf : WF 3 m) (hcl : ClosedFaces m) {d : Nat}
+    (hd : InUse m d) {i x y : Nat} (hx : (walk1 m d)[i]? = some x)
+    (hy : (walk1 m d)[(i + 1) % (walk1 m d).length]? = some y) : y = m.β 1 x := by
+  obtain ⟨hit, hpos, _, hcyc, _⟩ := walk1_cycle hwf hcl hd
+  generalize hk : (walk1 m d).length = k at *
+  have hi : i < k := by
+    have := (List.getElem?_eq_some_iff.1 hx).1; omega
+  have gx : x = (m.β 1)^[i] d := by
+    rw [hit] at hx
+    obtain ⟨h1, h2⟩ := List.getElem?_eq_some_iff.1 hx
+    rw [← h2]; exact List.getElem_iterate _ _ _ _ _
+  by_cases h1 : i + 1 < k
+  · rw [Nat.mod_eq_of_lt h1, hit] at hy
+    obtain ⟨h2, h3⟩ := List.getElem?_eq_some_iff.1 hy
+    rw [← h3, List.getElem_iterate, gx]
+    exact Function.iterate_succ_apply' _ _ _
+  · have h2 : i + 1 = k := by omega
+    rw [h2, Nat.mod_self, hit] at hy
+    obtain ⟨h3, h4⟩ := List.getElem?_eq_some_iff.1 hy
+    rw [← h4, List.getElem_iterate, gx, ← Function.iterate_succ_apply' (m.β 1) i d,
+      show i.succ = k by omega, hcyc]
+    rfl
+
+/-! ## 2-D: what the reader computes on a well-formed map -/
+
+section TwoD
+variable {m : Map Val} {sc : Scene}
+
+theorem evalP_of_run {α : Type} {p : P Val α} {m : Map Val} {a : α} {m' : Map Val}
+    (h : run p m = (.ok a, m')) : evalP p m = some a := by
+  unfold evalP; rw [h]
+
+theorem walk_eq (hwf : WF 3 m) {d : Nat} (hd0 : d ≠ 0) (hdn : d < m.n) :
+    (reader2 m).walk d = some (walk1 m d) :=
+  evalP_of_run (C03.C03_orbit2_spec hwf polOK1 hd0 hdn).1
+
+theorem vid_eq (hwf : WF 3 m) {d : Nat} (hd0 : d ≠ 0) (hdn : d < m.n) :
+    (reader2 m).vid d = some (C03.cellId m .vertex d) :=
+  evalP_of_run (C03.C03_vertexId2_min hwf hd0 hdn).1
+
+theorem mem_iterFaces_inUse {f : Nat} (hf : f ∈ iterFaces2 m) : InUse m f := by
+  obtain ⟨h1, h2, h3, _⟩ := (C03.mem_iterCells m _ f).1 hf
+  exact ⟨h2, h1, h3⟩
+
+/-! ## C20, 2-D -/
+
+/-- **C20, vertex entities**: the vertex entities are, in order, the ids of `iter_vertices`, the
+    table has one row per vertex, and the row stored in the entity of vertex `v` holds the
+    coordinates of `v` -/
+theorem C20_vertex_entities (h : extract2 m = some sc) :
+    sc.verts.map Prod.fst = iterVertices2 m ∧ sc.table.length = (iterVertices2 m).length ∧
+    ∀ v r, (v, r) ∈ sc.verts → rowOf (iterVertices2 m) v = some r ∧
+      ∃ x, sc.table[r]? = some x ∧ m.att 0 v = some x :=
+  vertex_entities (R := reader2 m) h
+
+/-- **C20, `index_map` is injective** (two vertex ids never share a table row) -/
+theorem C20_index_map_injective (m : Map Val) {v w r : Nat}
+    (hv : rowOf (iterVertices2 m) v = some r) (hw : rowOf (iterVertices2 m) w = some r) : v = w := by
+  have h1 := rowOf_get hv
+  have h2 := rowOf_get hw
+  rw [h1] at h2
+  exact Option.some.inj h2
+
+/-- **C20, `index_map` is onto the table rows** and defined exactly on the vertex ids -/
+theorem C20_index_map_onto (m : Map Val) :
+    (∀ r, r < (iterVertices2 m).length → ∃ v, v ∈ iterVertices2 m ∧ rowOf (iterVertices2 m) v = some r) ∧
+    (∀ v r, rowOf (iterVertices2 m) v = some r → v ∈ iterVertices2 m ∧ r < (iterVertices2 m).length) ∧
+    (∀ v, v ∈ iterVertices2 m → ∃ r, rowOf (iterVertices2 m) v = some r) := by
+  have hnd : (iterVertices2 m).Nodup :=
+    (C03.iterCells_sorted m _).imp (fun h => Nat.ne_of_lt h)
+  refine ⟨?_, ?_, fun v hv => rowOf_of_mem hv⟩
+  · intro r hr
+    exact ⟨_, List.getElem_mem hr, rowOf_of_get_nodup hnd (List.getElem?_eq_getElem hr)⟩
+  · intro v r h
+    have := rowOf_get h
+    exact ⟨List.mem_iff_getElem?.2 ⟨r, this⟩, (List.getElem?_eq_some_iff.1 this).1⟩
+
+/-- **C20, table = coordinates**: the row `index_map v` of the table holds the value of vertex `v` -/
+theorem C20_table_row (h : extract2 m = some sc) {v r : Nat}
+    (hr : rowOf (iterVertices2 m) v = some r) :
+    ∃ x, sc.table[r]? = some x ∧ m.att 0 v = some x :=
+  table_row (R := reader2 m) h hr
+
+/-- **C20, dart entity: ids and start**: a dart entity of dart `d` carries `vertex_id(d)`,
+    `edge_id(d)`, the id of a face of `iter_faces`, volume 1, and `start` is `index_map` of its
+    vertex id — the table row holding the coordinates of that vertex -/
+theorem C20_dart_start (h : extract2 m = some sc) {e : DartEnt} (he : e ∈ sc.darts) :
+    e.f ∈ iterFaces2 m ∧ evalP (vertexId2 m.n e.d) m = some e.v ∧ evalP (edgeId2 e.d) m = some e.e ∧
+    e.vol = 1 ∧ rowOf (iterVertices2 m) e.v = some e.s ∧
+    ∃ x, sc.table[e.s]? = some x ∧ m.att 0 e.v = some x := by
+  obtain ⟨h1, h2, h3, h4, h5, _⟩ := dart_entity (R := reader2 m) h he
+  obtain ⟨v, x, k1, k2, k3, k4⟩ := row_of_dart (R := reader2 m) h h5
+  have : v = e.v := by
+    have : (reader2 m).vid e.d = some v := k1
+    rw [h2] at this; exact (Option.some.inj this).symm
+  subst this
+  refine ⟨h1, h2, h3, ?_, k2, x, k3, k4⟩
+  have : (some 1 : Option Nat) = some e.vol := h4
+  exact (Option.some.inj this).symm
+
+/-- **C20, dart entity: end** (closed faces): `end` is `index_map` of the vertex id of the
+    successor `β1 d` — the table row holding the coordinates of that vertex -/
+theorem C20_dart_end (hwf : WF 3 m) (hcl : ClosedFaces m) (h : extract2 m = some sc) {e : DartEnt}
+    (he : e ∈ sc.darts) :
+    ∃ v' x, evalP (vertexId2 m.n (m.β 1 e.d)) m = some v' ∧
+      rowOf (iterVertices2 m) v' = some e.t ∧ sc.table[e.t]? = some x ∧ m.att 0 v' = some x := by
+  obtain ⟨h1, _, _, _, _, w, w2, hw, hw2, hcase⟩ := dart_entity (R := reader2 m) h he
+  have hf := mem_iterFaces_inUse h1
+  have hw' : w = walk1 m e.f := by
+    have := walk_eq hwf hf.1 hf.2.1
+    rw [hw] at this; exact Option.some.inj this
+  have hw2' : w2 = [] := by
+    have : (some [] : Option (List Nat)) = some w2 := hw2
+    exact (Option.some.inj this).symm
+  rcases hcase with ⟨i, d', k1, k2, k3⟩ | ⟨i, d', k1, _, _⟩
+  · subst hw'
+    have hd' : d' = m.β 1 e.d := walk1_succ hwf hcl hf k1 k2
+    subst hd'
+    obtain ⟨v, x, j1, j2, j3, j4⟩ := row_of_dart (R := reader2 m) h k3
+    exact ⟨v, x, j1, j2, j3, j4⟩
+  · subst hw2'; simp at k1
+
+/-- **C20, edge entities**: one per id of `iter_edges`, in that order; the two ends are
+    `index_map` of the vertex of the edge's dart and of the vertex of `β2 id` (of `β1 id` when the
+    dart is 2-free), and the table holds the coordinates of these vertices at those rows -/
+theorem C20_edge_entity (h : extract2 m = some sc) :
+    sc.edges.map (·.1) = iterEdges2 m ∧
+    ∀ id a b, (id, a, b) ∈ sc.edges →
+      ∃ v1 v2 x1 x2, evalP (vertexId2 m.n id) m = some v1 ∧
+        evalP (vertexId2 m.n (if m.β 2 id = 0 then m.β 1 id else m.β 2 id)) m = some v2 ∧
+        rowOf (iterVertices2 m) v1 = some a ∧ rowOf (iterVertices2 m) v2 = some b ∧
+        sc.table[a]? = some x1 ∧ m.att 0 v1 = some x1 ∧
+        sc.table[b]? = some x2 ∧ m.att 0 v2 = some x2 := by
+  obtain ⟨h1, h2⟩ := edge_entities (R := reader2 m) h
+  refine ⟨h1, ?_⟩
+  intro id a b hm
+  obtain ⟨k1, k2⟩ := h2 id a b hm
+  obtain ⟨v1, x1, a1, a2, a3, a4⟩ := row_of_dart (R := reader2 m) h k1
+  obtain ⟨v2, x2, b1, b2, b3, b4⟩ := row_of_dart (R := reader2 m) h k2
+  exact ⟨v1, v2, x1, x2, a1, b1, a2, b2, a3, a4, b3, b4⟩
+
+/-- **C20, face entities** (closed faces): one per id of `iter_faces`, in that order; the corner
+    list of face `f` has as many entries as the β1-cycle of `f` has darts (`β1^k f = f`, the `k`
+    darts `f, β1 f, …` distinct, `k ≥ 2`), and its `i`-th entry is `index_map` of the vertex id of
+    `β1^i f` — the table row holding the coordinates of that corner -/
+theorem C20_face_corners (hwf : WF 3 m) (hcl : ClosedFaces m) (h : extract2 m = some sc) :
+    sc.faces.map (·.1) = iterFaces2 m ∧
+    ∀ f rows, (f, rows) ∈ sc.faces →
+      2 ≤ rows.length ∧ (m.β 1)^[rows.length] f = f ∧ (List.iterate (m.β 1) f rows.length).Nodup ∧
+      ∀ i r, rows[i]? = some r →
+        ∃ v x, evalP (vertexId2 m.n ((m.β 1)^[i] f)) m = some v ∧
+          rowOf (iterVertices2 m) v = some r ∧ sc.table[r]? = some x ∧ m.att 0 v = some x := by
+  obtain ⟨h1, h2⟩ := face_entities (R := reader2 m) h
+  refine ⟨h1, ?_⟩
+  intro f rows hm
+  obtain ⟨hf, hlen, w, hw, hall⟩ := h2 f rows hm
+  have hfu := mem_iterFaces_inUse hf
+  have hw' : w = walk1 m f := by
+    have := walk_eq hwf hfu.1 hfu.2.1
+    have hw0 : (reader2 m).walk f = some w := hw
+    rw [hw0] at this; exact Option.some.inj this
+  subst hw'
+  obtain ⟨hit, hpos, hnd, hcyc, _⟩ := walk1_cycle hwf hcl hfu
+  have hl : (walk1 m f).length = rows.length := hall.length_eq
+  refine ⟨hlen, by rw [← hl]; exact hcyc, by rw [← hl, ← hit]; exact hnd, ?_⟩
+  intro i r hr
+  have hi : i < rows.length := (List.getElem?_eq_some_iff.1 hr).1
+  have hi' : i < (walk1 m f).length := by omega
+  have hrel := (List.forall₂_iff_get.1 hall).2 i hi' hi
+  have e1 : rows.get ⟨i, hi⟩ = r := by
+    have := (List.getElem?_eq_some_iff.1 hr).2; simpa using this
+  have e2 : (walk1 m f).get ⟨i, hi'⟩ = (m.β 1)^[i] f := by
+    show (walk1 m f)[i] = _
+    have : (walk1 m f)[i] = (List.iterate (m.β 1) f (walk1 m f).length)[i]'(by simp; omega) := by
+      congr 1
+    rw [this]; exact List.getElem_iterate _ _ _ _ _
+  rw [e1, e2] at hrel
+  obtain ⟨v, x, j1, j2, j3, j4⟩ := row_of_dart (R := reader2 m) h hrel
+  exact ⟨v, x, j1, j2, j3, j4⟩
+
+/-- the number of darts of the β1-cycle of `f` -/
+def period (m : Map Val) (f : Nat) : Nat := (walk1 m f).length
+
+/-- `period m f` is the least positive period of `β1` at `f` (closed faces): the cycle closes after
+    `period` steps and its darts are pairwise distinct, all in use -/
+theorem period_spec (hwf : WF 3 m) (hcl : ClosedFaces m) {f : Nat} (hf : InUse m f) :
+    0 < period m f ∧ (m.β 1)^[period m f] f = f ∧ (List.iterate (m.β 1) f (period m f)).Nodup ∧
+    ∀ x, x ∈ List.iterate (m.β 1) f (period m f) → InUse m x := by
+  obtain ⟨hit, hpos, hnd, hcyc, hin⟩ := walk1_cycle hwf hcl hf
+  unfold period
+  exact ⟨hpos, hcyc, by rw [← hit]; exact hnd, by rw [← hit]; exact hin⟩
+
+/-- **C20, dart entities, face by face** (closed faces): the dart entities are, in spawn order and
+    face after face in `iter_faces` order, exactly the darts `f, β1 f, …, β1^(period-1) f` of the
+    β1-cycle of the face id `f`, each once, tagged with that face id -/
+theorem C20_dart_entities_of_face (hwf : WF 3 m) (hcl : ClosedFaces m) (h : extract2 m = some sc) :
+    sc.darts.map (fun e => (e.f, e.d)) =
+      (iterFaces2 m).flatMap (fun f => (List.iterate (m.β 1) f (period m f)).map (fun d => (f, d))) := by
+  obtain ⟨fbs, _, e5, hall⟩ := face_blocks (R := reader2 m) h
+  rw [e5, List.map_flatten, List.map_map, List.flatMap_def]
+  congr 1
+  symm
+  refine forall₂_map_eq hall ?_
+  intro f fb hf hfb
+  have hfu := mem_iterFaces_inUse hf
+  obtain ⟨w, rows, d1, w2, d2, hw, _, _, hd1, hs2, hd2, rfl⟩ := faceBundle_inv hfb
+  have hw' : w = walk1 m f := by
+    have := walk_eq hwf hfu.1 hfu.2.1
+    have hw0 : (reader2 m).walk f = some w := hw
+    rw [hw0] at this; exact Option.some.inj this
+  have hw2' : w2 = [] := by
+    have : (some [] : Option (List Nat)) = some w2 := hs2
+    exact (Option.some.inj this).symm
+  subst hw' hw2'
+  have hd2' : d2 = [] := by
+    have := (dartBundles_get hd2).1
+    exact List.eq_nil_of_length_eq_zero (by simpa using this)
+  subst hd2'
+  simp only [Function.comp, List.append_nil]
+  rw [dartBundles_map_fd hd1]
+  unfold period
+  rw [← (walk1_cycle hwf hcl hfu).1]
+
+theorem orb_faceLinear_eq (m : Map Val) (f : Nat) : C03.orb m .faceLinear f = walk1 m f := by
+  unfold walk1 C03.orb
+  have : C03.g2 m .faceLinear = C03.g2 m (.custom [1]) := by funext x; rfl
+  rw [this]
+
+theorem mem_walk1_iff (hwf : WF 3 m) (hcl : ClosedFaces m) {f : Nat} (hf : InUse m f) (x : Nat) :
+    x ∈ walk1 m f ↔ x ∈ C03.orb m .face f := by
+  rw [← orb_faceLinear_eq]
+  refine C03.C03_faceLinear_closed hwf hf.1 hf.2.1 ?_ x
+  intro y hy
+  have hyu := C03.C03_orbit_of_in_use_is_in_use hwf (pol := .face) trivial hf.1 hf.2.1 hf.2.2 y hy
+  obtain ⟨_, _, _, hno0, _, hlt⟩ := C03.C03_orbit2_spec hwf (pol := .face) trivial hf.1 hf.2.1
+  exact hcl y (hlt y hy) (fun e => hno0 (e ▸ hy)) hyu
+
+theorem faceId_of_mem_iterFaces (hwf : WF 3 m) {f : Nat} (hf : f ∈ iterFaces2 m) :
+    C03.cellId m .face f = f := by
+  obtain ⟨h1, h2, _, h4⟩ := (C03.mem_iterCells m _ f).1 hf
+  rw [(C03.C03_faceId2_min hwf h2 h1).1, C03.okVal_ok] at h4
+  exact h4
+
+/-- a dart of the cycle of a face id has that face id -/
+theorem faceId_of_mem_walk1 (hwf : WF 3 m) (hcl : ClosedFaces m) {f d : Nat} (hf : f ∈ iterFaces2 m)
+    (hd : d ∈ walk1 m f) : C03.cellId m .face d = f := by
+  have hfu := mem_iterFaces_inUse hf
+  have hdu := (walk1_cycle hwf hcl hfu).2.2.2.2 d hd
+  have h1 := (mem_walk1_iff hwf hcl hfu d).1 hd
+  have h2 := ((C03.mem_orb hwf (pol := .face) trivial hfu.1 hfu.2.1 d).1 h1).2
+  have := ((C03.C03_same_id_iff_same_cell hwf (pol := .face) trivial hfu.1 hfu.2.1 hdu.1 hdu.2.1).1).2 h2
+  rw [← this]; exact faceId_of_mem_iterFaces hwf hf
+
+/-- **C20, one dart entity per in-use dart** (closed faces): no dart has two dart entities, and the
+    darts that have one are exactly the in-use darts (non-null, existing, not removed) -/
+theorem C20_each_dart_once (hwf : WF 3 m) (hcl : ClosedFaces m) (h : extract2 m = some sc) :
+    (sc.darts.map (·.d)).Nodup ∧ ∀ d, d ∈ sc.darts.map (·.d) ↔ InUse m d := by
+  have key : sc.darts.map (·.d) = (iterFaces2 m).flatMap (walk1 m) := by
+    have := congrArg (List.map Prod.snd) (C20_dart_entities_of_face hwf hcl h)
+    rw [List.map_map, List.map_flatMap] at this
+    rw [show (fun e : DartEnt => e.d) = Prod.snd ∘ fun e => (e.f, e.d) from rfl, this]
+    apply List.flatMap_congr
+    intro f hf
+    rw [List.map_map]
+    unfold period
+    rw [← (walk1_cycle hwf hcl (mem_iterFaces_inUse hf)).1]
+    simp [Function.comp]
+  rw [key]
+  constructor
+  · rw [List.nodup_flatMap]
+    refine ⟨fun f hf => (walk1_cycle hwf hcl (mem_iterFaces_inUse hf)).2.2.1, ?_⟩
+    refine List.Pairwise.imp_of_mem ?_ (C03.iterCells_sorted m (faceId2 m.n))
+    intro a b ha hb hab
+    show List.Disjoint (walk1 m a) (walk1 m b)
+    intro d hda hdb
+    have e1 := faceId_of_mem_walk1 hwf hcl ha hda
+    have e2 := faceId_of_mem_walk1 hwf hcl hb hdb
+    omega
+  · intro d
+    rw [List.mem_flatMap]
+    constructor
+    · rintro ⟨f, hf, hd⟩
+      exact (walk1_cycle hwf hcl (mem_iterFaces_inUse hf)).2.2.2.2 d hd
+    · rintro ⟨hd0, hdn, hdu⟩
+      have hf : C03.cellId m .face d ∈ iterFaces2 m :=
+        (C03.C03_iterFaces2_mem hwf _).2 ⟨d, hd0, hdn, hdu, rfl⟩
+      refine ⟨_, hf, ?_⟩
+      have hfu := mem_iterFaces_inUse hf
+      rw [mem_walk1_iff hwf hcl hfu, C03.mem_orb hwf (pol := .face) trivial hfu.1 hfu.2.1]
+      refine ⟨hd0, ?_⟩
+      have h1 := (C03.cellId_spec hwf (pol := .face) trivial hd0 hdn).1
+      have h2 := ((C03.mem_orb hwf (pol := .face) trivial hd0 hdn _).1 h1).2
+      exact C03.reach_symm hwf (pol := .face) trivial hdn hfu.1 h2
+
+/-! ## the extraction does not panic on embedded maps with closed faces -/
+
+/-- every vertex id has coordinates -/
+def Embedded (m : Map Val) : Prop := ∀ v, v ∈ iterVertices2 m → (m.att 0 v).isSome = true
+
+/-- no face is a β1-loop on a single dart -/
+def NoLoops {X : Type} (m : Map X) : Prop :=
+  ∀ d, d < m.n → d ≠ 0 → m.unused d = false → m.β 1 d ≠ d
+
+instance (m : Map Val) : Decidable (Embedded m) := by unfold Embedded; exact inferInstance
+instance {X : Type} (m : Map X) : Decidable (NoLoops m) := by unfold NoLoops; exact inferInstance
+
+theorem inUse_image (hwf : WF 3 m) {d i : Nat} (hd : InUse m d) (hi : i < 3) (hne : m.β i d ≠ 0) :
+    InUse m (m.β i d) := by
+  refine ⟨hne, hwf.range i hi d hd.2.1, ?_⟩
+  cases hu : m.unused (m.β i d) with
+  | false => rfl
+  | true => exact absurd (C01.C01_unused_is_nobodys_image hwf i hi d hd.2.1 hu) hne
+
+theorem lookups_inUse (hwf : WF 3 m) {d : Nat} (hd : InUse m d) :
+    (∃ r, (reader2 m).rowOfDart d = some r) ∧ (∃ v, (reader2 m).vid d = some v) ∧
+      (∃ e, (reader2 m).eid d = some e) ∧ ∃ c, (reader2 m).volid d = some c := by
+  have hv := vid_eq hwf hd.1 hd.2.1
+  have hmem : C03.cellId m .vertex d ∈ iterVertices2 m :=
+    (C03.C03_iterVertices2_mem hwf _).2 ⟨d, hd.1, hd.2.1, hd.2.2, rfl⟩
+  obtain ⟨r, hr⟩ := rowOf_of_mem hmem
+  refine ⟨⟨r, ?_⟩, ⟨_, hv⟩, ⟨_, evalP_of_run (C03.C03_edgeId2_min hwf hd.1 hd.2.1).1⟩, ⟨1, rfl⟩⟩
+  unfold Reader.rowOfDart
+  rw [hv]; exact hr
+
+/-- **C20, the extraction succeeds**: on a well-formed 2-map whose in-use darts all lie on closed
+    faces of at least two sides and whose vertex ids all have coordinates, the start-up system does
+    not panic (so the other theorems apply to the scene it builds) -/
+theorem C20_no_panic (hwf : WF 3 m) (hcl : ClosedFaces m) (hnl : NoLoops m) (hemb : Embedded m) :
+    ∃ sc, extract2 m = some sc := by
+  unfold extract2
+  apply extractWith_isSome
+  · intro v hv
+    exact Option.isSome_iff_exists.1 (hemb v hv)
+  · intro id hid
+    obtain ⟨h1, h2, h3, _⟩ := (C03.mem_iterCells m _ id).1 hid
+    have hu : InUse m id := ⟨h2, h1, h3⟩
+    obtain ⟨⟨r1, hr1⟩, _⟩ := lookups_inUse hwf hu
+    have hend : InUse m ((reader2 m).edgeEnd id) := by
+      show InUse m (if m.β 2 id = 0 then m.β 1 id else m.β 2 id)
+      by_cases h2 : m.β 2 id = 0
+      · rw [if_pos h2]; exact inUse_image hwf hu (by omega) (hcl id h1 hu.1 h3)
+      · rw [if_neg h2]; exact inUse_image hwf hu (by omega) h2
+    obtain ⟨⟨r2, hr2⟩, _⟩ := lookups_inUse hwf hend
+    unfold edgeBundle
+    rw [hr1, hr2]
+    exact ⟨_, rfl⟩
+  · intro f hf
+    have hfu := mem_iterFaces_inUse hf
+    obtain ⟨hit, hpos, _, hcyc, hin⟩ := walk1_cycle hwf hcl hfu
+    refine faceBundle_isSome (w2 := []) (walk_eq hwf hfu.1 hfu.2.1) rfl ?_ ?_
+    · -- a cycle of length 1 would be a β1-loop
+      by_contra hlt
+      have h1 : (walk1 m f).length = 1 := by omega
+      rw [h1] at hcyc
+      exact hnl f hfu.2.1 hfu.1 hfu.2.2 hcyc
+    · intro d hd
+      rw [List.append_nil] at hd
+      exact lookups_inUse hwf (hin d hd)
+
+end TwoD
+
+/-! ## 3-D: the dimension-independent clauses for `extract3` -/
+
+section ThreeD
+variable {m : Map Val} {sc : Scene}
+
+theorem extract3_inv (h : extract3 m = some sc) :
+    ∃ sc0 k, extractWith (reader3 m) (some []) = some sc0 ∧ volKeys3 m (reader3 m) = some k ∧
+      sc.table = sc0.table ∧ sc.verts = sc0.verts ∧ sc.edges = sc0.edges ∧ sc.faces = sc0.faces ∧
+      sc.darts = sc0.darts ∧ sc.vnKeys = some k := by
+  unfold extract3 at h
+  simp only at h
+  split at h
+  · exact absurd h (by simp)
+  · rename_i sc0 h0
+    split at h
+    · exact absurd h (by simp)
+    · rename_i k hk
+      simp only [Option.some.injEq] at h
+      subst h
+      exact ⟨sc0, k, h0, hk, rfl, rfl, rfl, rfl, rfl, rfl⟩
+
+/-- **C20 (3-D), vertex entities and table**: as in 2-D, with `iter_vertices` of the 3-map -/
+theorem C20_3d_vertex_entities (h : extract3 m = some sc) :
+    sc.verts.map Prod.fst = iterVertices3 m ∧ sc.table.length = (iterVertices3 m).length ∧
+    ∀ v r, (v, r) ∈ sc.verts → rowOf (iterVertices3 m) v = some r ∧
+      ∃ x, sc.table[r]? = some x ∧ m.att 0 v = some x := by
+  obtain ⟨sc0, k, h0, _, e1, e2, _⟩ := extract3_inv h
+  rw [e1, e2]
+  exact vertex_entities (R := reader3 m) h0
+
+/-- **C20 (3-D), dart entity: ids and start**: a dart entity of dart `d` carries `vertex_id(d)`,
+    `edge_id(d)`, `volume_id(d)`, the id of a face of `iter_faces`, and `start` is `index_map` of
+    its vertex id — the table row holding the coordinates of that vertex -/
+theorem C20_3d_dart_start (h : extract3 m = some sc) {e : DartEnt} (he : e ∈ sc.darts) :
+    e.f ∈ iterFaces3 m ∧ evalP (vertexId3 m.n e.d) m = some e.v ∧
+    evalP (edgeId3 m.n e.d) m = some e.e ∧ evalP (volumeId3 m.n e.d) m = some e.vol ∧
+    rowOf (iterVertices3 m) e.v = some e.s ∧
+    ∃ x, sc.table[e.s]? = some x ∧ m.att 0 e.v = some x := by
+  obtain ⟨sc0, k, h0, _, e1, _, _, _, e5, _⟩ := extract3_inv h
+  rw [e5] at he
+  obtain ⟨h1, h2, h3, h4, h5, _⟩ := dart_entity (R := reader3 m) h0 he
+  obtain ⟨v, x, k1, k2, k3, k4⟩ := row_of_dart (R := reader3 m) h0 h5
+  have : v = e.v := by
+    have : (reader3 m).vid e.d = some v := k1
+    rw [h2] at this; exact (Option.some.inj this).symm
+  subst this
+  exact ⟨h1, h2, h3, h4, k2, x, by rw [e1]; exact k3, k4⟩
+
+/-- **C20 (3-D), edge entities**: one per id of `iter_edges`; the ends are `index_map` of the vertex
+    of the edge's dart and of the vertex of `β3 id`, else `β2 id`, else `β1 id` (first non-free), and
+    the table holds the coordinates of these vertices at those rows -/
+theorem C20_3d_edge_entity (h : extract3 m = some sc) :
+    sc.edges.map (·.1) = iterEdges3 m ∧
+    ∀ id a b, (id, a, b) ∈ sc.edges →
+      ∃ v1 v2 x1 x2, evalP (vertexId3 m.n id) m = some v1 ∧
+        evalP (vertexId3 m.n
+          (if m.β 3 id = 0 then (if m.β 2 id = 0 then m.β 1 id else m.β 2 id) else m.β 3 id)) m = some v2 ∧
+        rowOf (iterVertices3 m) v1 = some a ∧ rowOf (iterVertices3 m) v2 = some b ∧
+        sc.table[a]? = some x1 ∧ m.att 0 v1 = some x1 ∧
+        sc.table[b]? = some x2 ∧ m.att 0 v2 = some x2 := by
+  obtain ⟨sc0, k, h0, _, e1, _, e3, _⟩ := extract3_inv h
+  obtain ⟨h1, h2⟩ := edge_entities (R := reader3 m) h0
+  rw [e3, e1]
+  refine ⟨h1, ?_⟩
+  intro id a b hm
+  obtain ⟨k1, k2⟩ := h2 id a b hm
+  obtain ⟨v1, x1, a1, a2, a3, a4⟩ := row_of_dart (R := reader3 m) h0 k1
+  obtain ⟨v2, x2, b1, b2, b3, b4⟩ := row_of_dart (R := reader3 m) h0 k2
+  exact ⟨v1, v2, x1, x2, a1, b1, a2, b2, a3, a4, b3, b4⟩
+
+/-- **C20 (3-D), face entities carry the ids of `iter_faces`** and list, in walk order, the rows of
+    the vertices of the darts of `orbit(Custom(&[1]), id)` (that this walk is the β1-cycle is proved
+    in 2-D only) -/
+theorem C20_3d_face_entity (h : extract3 m = some sc) :
+    sc.faces.map (·.1) = iterFaces3 m ∧
+    ∀ f rows, (f, rows) ∈ sc.faces → 2 ≤ rows.length ∧
+      ∃ w, evalP (orbit3 m.n (.custom [1]) f) m = some w ∧
+        List.Forall₂ (fun d r => ∃ v x, evalP (vertexId3 m.n d) m = some v ∧
+          rowOf (iterVertices3 m) v = some r ∧ sc.table[r]? = some x ∧ m.att 0 v = some x) w rows := by
+  obtain ⟨sc0, k, h0, _, e1, _, _, e4, _⟩ := extract3_inv h
+  obtain ⟨h1, h2⟩ := face_entities (R := reader3 m) h0
+  rw [e4, e1]
+  refine ⟨h1, ?_⟩
+  intro f rows hm
+  obtain ⟨_, hlen, w, hw, hall⟩ := h2 f rows hm
+  refine ⟨hlen, w, hw, hall.imp ?_⟩
+  intro d r hdr
+  obtain ⟨v, x, j1, j2, j3, j4⟩ := row_of_dart (R := reader3 m) h0 hdr
+  exact ⟨v, x, j1, j2, j3, j4⟩
+
+end ThreeD
+
+/-! ## non-vacuity: the hypotheses are satisfiable and the conclusions say something -/
+
+/-- two triangles `1-2-3` (A B C) and `4-5-6` (C B D) glued along `2|4`; dart 7 is removed.
+    Vertex ids 1, 2, 3, 6 — the id 6 sits in table row 3 (id ≠ row). -/
+def exT : Map Val :=
+  { n := 8
+    b := #[#[0, 3, 1, 2, 6, 4, 5, 0], #[0, 2, 3, 1, 5, 6, 4, 0], #[0, 0, 4, 0, 2, 0, 0, 0]]
+    u := #[false, false, false, false, false, false, false, true]
+    a := #[#[none, some (.pt 0 0 0), some (.pt 1 0 0), some (.pt 0 1 0), none, none,
+             some (.pt 1 1 0), none]] }
+
+def exTScene : Scene :=
+  { table := [.pt 0 0 0, .pt 1 0 0, .pt 0 1 0, .pt 1 1 0]
+    verts := [(1, 0), (2, 1), (3, 2), (6, 3)]
+    edges := [(1, 0, 1), (2, 1, 2), (3, 2, 0), (5, 1, 3), (6, 3, 2)]
+    faces := [(1, [0, 1, 2]), (4, [2, 1, 3])]
+    darts := [⟨1, 1, 1, 1, 1, 0, 1⟩, ⟨2, 2, 2, 1, 1, 1, 2⟩, ⟨3, 3, 3, 1, 1, 2, 0⟩,
+              ⟨4, 3, 2, 4, 1, 2, 1⟩, ⟨5, 2, 5, 4, 1, 1, 3⟩, ⟨6, 6, 6, 4, 1, 3, 2⟩]
+    fnKeys := [(1, 0), (1, 1), (1, 2), (4, 2), (4, 1), (4, 3)]
+    vnKeys := none }
+
+theorem exT_wf : WF 3 exT := by decide
+theorem exT_closed : ClosedFaces exT := by decide
+theorem exT_noLoops : NoLoops exT := by decide
+theorem exT_embedded : Embedded exT := by decide +kernel
+theorem exT_scene : extract2 exT = some exTScene := by decide +kernel
+
+example : ∃ sc, extract2 exT = some sc := C20_no_panic exT_wf exT_closed exT_noLoops exT_embedded
+example : exTScene.verts.map Prod.fst = iterVertices2 exT := (C20_vertex_entities exT_scene).1
+example : iterVertices2 exT = [1, 2, 3, 6] := by decide +kernel
+example : rowOf (iterVertices2 exT) 6 = some 3 := by decide +kernel
+example : ∃ x, exTScene.table[3]? = some x ∧ exT.att 0 6 = some x :=
+  C20_table_row exT_scene (by decide +kernel)
+example {v w r : Nat} (hv : rowOf (iterVertices2 exT) v = some r)
+    (hw : rowOf (iterVertices2 exT) w = some r) : v = w := C20_index_map_injective exT hv hw
+example : ∃ v, v ∈ iterVertices2 exT ∧ rowOf (iterVertices2 exT) v = some 3 :=
+  (C20_index_map_onto exT).1 3 (by decide +kernel)
+-- dart 4 (C → B, second triangle): vertex id 3 ≠ dart id; start row 2 = C, end row 1 = B = vertex of β1 4 = 5
+example : (⟨4, 3, 2, 4, 1, 2, 1⟩ : DartEnt) ∈ exTScene.darts := by decide
+example : rowOf (iterVertices2 exT) 3 = some 2 ∧
+    ∃ x, exTScene.table[2]? = some x ∧ exT.att 0 3 = some x :=
+  (C20_dart_start exT_scene (e := ⟨4, 3, 2, 4, 1, 2, 1⟩) (by decide)).2.2.2.2
+example : ∃ v' x, evalP (vertexId2 exT.n (exT.β 1 4)) exT = some v' ∧
+    rowOf (iterVertices2 exT) v' = some 1 ∧ exTScene.table[1]? = some x ∧ exT.att 0 v' = some x :=
+  C20_dart_end exT_wf exT_closed exT_scene (e := ⟨4, 3, 2, 4, 1, 2, 1⟩) (by decide)
+-- edges: 2 is sewn (second end through β2), 5 is a boundary edge (second end through β1)
+example : exTScene.edges.map (·.1) = iterEdges2 exT := (C20_edge_entity exT_scene).1
+example : exT.β 2 2 = 4 ∧ exT.β 2 5 = 0 ∧ exT.β 1 5 = 6 := by decide
+example := (C20_edge_entity exT_scene).2 5 1 3 (by decide)
+-- faces: corner order follows β1; the second face starts at its id 4 (corner C), not at a "first" dart
+example : exTScene.faces.map (·.1) = iterFaces2 exT := (C20_face_corners exT_wf exT_closed exT_scene).1
+example : (exT.β 1)^[3] 4 = 4 ∧ (List.iterate (exT.β 1) 4 3).Nodup :=
+  let h := (C20_face_corners exT_wf exT_closed exT_scene).2 4 [2, 1, 3] (by decide)
+  ⟨h.2.1, h.2.2.1⟩
+example : period exT 4 = 3 := by decide +kernel
+example : exTScene.darts.map (fun e => (e.f, e.d)) =
+    [(1, 1), (1, 2), (1, 3), (4, 4), (4, 5), (4, 6)] := by decide
+example : exTScene.darts.map (fun e => (e.f, e.d)) = (iterFaces2 exT).flatMap
+    (fun f => (List.iterate (exT.β 1) f (period exT f)).map (fun d => (f, d))) :=
+  C20_dart_entities_of_face exT_wf exT_closed exT_scene
+-- the removed dart 7 has no entity, every other dart exactly one
+example : (7 ∈ exTScene.darts.map (·.d) ↔ InUse exT 7) ∧ ¬ InUse exT 7 :=
+  ⟨(C20_each_dart_once exT_wf exT_closed exT_scene).2 7, by decide⟩
+example : (exTScene.darts.map (·.d)).Nodup := (C20_each_dart_once exT_wf exT_closed exT_scene).1
+
+-- the hypotheses matter: an isolated in-use dart (open face) makes the start-up system panic
+def exFree : Map Val :=
+  { n := 2, b := #[#[0, 0], #[0, 0], #[0, 0]], u := #[false, false], a := #[#[none, some (.pt 0 0 0)]] }
+example : WF 3 exFree ∧ ¬ ClosedFaces exFree ∧ extract2 exFree = none := by decide +kernel
+
+/-- 3-D: one triangular face with two sides `1-2-3` / `4-5-6` (β3: 1↔4, 2↔6, 3↔5), mirrored -/
+def exP : Map Val :=
+  { n := 7
+    b := #[#[0, 3, 1, 2, 6, 4, 5], #[0, 2, 3, 1, 5, 6, 4], #[0, 0, 0, 0, 0, 0, 0],
+           #[0, 4, 6, 5, 1, 3, 2]]
+    u := #[false, false, false, false, false, false, false]
+    a := #[#[none, some (.pt 0 0 0), some (.pt 1 0 0), some (.pt 0 1 0), some (.pt 1 0 0),
+             some (.pt 0 0 0), some (.pt 0 1 0)]] }
+
+def exPScene : Scene :=
+  { table := [.pt 0 0 0, .pt 1 0 0, .pt 0 1 0]
+    verts := [(1, 0), (2, 1), (3, 2)]
+    edges := [(1, 0, 1), (2, 1, 2), (3, 2, 0)]
+    faces := [(1, [0, 1, 2])]
+    darts := [⟨1, 1, 1, 1, 1, 0, 1⟩, ⟨2, 2, 2, 1, 1, 1, 2⟩, ⟨3, 3, 3, 1, 1, 2, 0⟩,
+              ⟨4, 2, 1, 1, 4, 1, 0⟩, ⟨5, 1, 3, 1, 4, 0, 2⟩, ⟨6, 3, 2, 1, 4, 2, 1⟩]
+    fnKeys := [(1, 0), (1, 1), (1, 2)]
+    vnKeys := some [(1, 0), (1, 1), (1, 2), (4, 1), (4, 0), (4, 2)] }
+
+theorem exP_wf : WF 4 exP ∧ Mirror exP := by decide
+theorem exP_scene : extract3 exP = some exPScene := by decide +kernel
+
+example : exPScene.verts.map Prod.fst = iterVertices3 exP := (C20_3d_vertex_entities exP_scene).1
+example := (C20_3d_dart_start exP_scene (e := ⟨4, 2, 1, 1, 4, 1, 0⟩) (by decide))
+example := (C20_3d_edge_entity exP_scene).2 1 0 1 (by decide)
+example := (C20_3d_face_entity exP_scene).2 1 [0, 1, 2] (by decide)
+-- both sides of the face are enumerated: six dart entities for the six darts
+example : exPScene.darts.map (·.d) = [1, 2, 3, 4, 5, 6] := by decide
 
 end HC.C20
